@@ -721,6 +721,30 @@ func (c *Ctx) Add(a, b *Term) *Term {
 	if b.IsConst() && isAllOnes(b) && a.Op == OpConcat && len(a.Args) == 2 && isZero(a.Args[0]) && a.Args[1].W == 1 {
 		return c.Ite(c.Eq(a.Args[1], c.Const(1, 1)), c.Const(a.W, 0), b)
 	}
+	// addition of terms with disjoint non-zero bit ranges is a concatenation (byte assembly with '+')
+	if a.Op == OpConcat || b.Op == OpConcat {
+		sa, sb := c.alignSegs(a, b)
+		if len(sa) > 1 {
+			ok := true
+			out := make([]*Term, len(sa))
+			for i := range sa {
+				switch {
+				case isZero(sa[i]):
+					out[i] = sb[i]
+				case isZero(sb[i]):
+					out[i] = sa[i]
+				default:
+					ok = false
+				}
+				if !ok {
+					break
+				}
+			}
+			if ok {
+				return c.Concat(out...)
+			}
+		}
+	}
 	// (x + k1) + k2
 	if b.IsConst() && a.Op == OpAdd && a.Args[1].IsConst() {
 		return c.Add(a.Args[0], c.Add(a.Args[1], b))
